@@ -40,3 +40,4 @@ def check(repo, rep, tier):
     # every literal of a clause is compiled to the code of that very term (sample clauses incl. terms that print alike)
     from .. import rules_clause as rcl
     rep.run(rcl.rule_clause_head, cm, rep, 'C16.A11')
+    rep.run(rcl.rule_term_code_denotes_term, cm, rep, 'C16.A12')
